@@ -17,7 +17,7 @@ ASSUMPTIONS = ["ownership of a kind = the package that defines its entity class 
                "iq results/errors are exercised through C08's request/reply path; encryption-specific stanzas through C03",
                "with the encryption layers present outgoing messages are judged at the probe below the protocol group"]
 REQUIRED = ["outgoing_cases", "incoming_cases", "expected_one_observed_one", "expected_zero_observed_zero", "selections", "kinds_outgoing", "kinds_incoming",
-            "unserved_retry_receipts", "unserved_retry_receipts_ok", "incoming_newer_shape", "incoming_newer_shape_ok", "encrypted_incoming", "encrypted_incoming_ok", "encrypted_incoming:first-message", "encrypted_incoming:later-message", "encrypted_incoming:group-with-distribution", "encrypted_incoming:group-sender-key-only", "encrypted_incoming:group-pairwise-only", "with_enc", "without_enc", "send_handlers_seen", "direction_switches", "reply_inside_send_cases", "reply_cases", "reply_one_entity", "reply_with_others_outstanding", "reply:error", "reply:result"]
+            "unserved_retry_receipts", "unserved_retry_receipts_ok", "incoming_newer_shape", "incoming_newer_shape_ok", "encrypted_incoming", "encrypted_incoming_ok", "encrypted_incoming:first-message", "encrypted_incoming:later-message", "encrypted_incoming:group-with-distribution", "encrypted_incoming:group-sender-key-only", "encrypted_incoming:group-pairwise-only", "encrypted_incoming:group-media-with-distribution", "with_enc", "without_enc", "send_handlers_seen", "direction_switches", "reply_inside_send_cases", "reply_cases", "reply_one_entity", "reply_with_others_outstanding", "reply:error", "reply:result"]
 TIMEOUT = {"quick": 600, "thorough": 7200}
 
 INCOMING_FIXTURES = ["message_text", "message_media_contact", "message_media_downloadable_audio", "message_media_downloadable_image",
@@ -526,6 +526,42 @@ def encrypted_incoming(acc, kit, sel, sname, seed):
     both.sender_key_distribution_message.group_id = gj
     both.sender_key_distribution_message.axolotl_sender_key_distribution_message = skdm
     judge("group-pairwise-only", stanza([pairwise(both)], True), t)
+    if sel.get("media"):
+        # a first media message of a sender in another group, as other clients send it: the pairwise part carries the sender key
+        # only (and no mediatype attribute), the sender-key part carries the media message and says what it is
+        gj2 = gen.jid(r, True)
+        skdm2 = P.group_create_skmsg(gj2).serialize()
+        dist2 = Message()
+        dist2.sender_key_distribution_message.group_id = gj2
+        dist2.sender_key_distribution_message.axolotl_sender_key_distribution_message = skdm2
+        img = Message()
+        img.image_message.url = "https://mmg.whatsapp.net/d/f/%s.enc" % gen.s_from(r, gen.ALNUM, 10)
+        img.image_message.mimetype = "image/jpeg"
+        img.image_message.file_sha256 = gen.blob(r, 32)
+        img.image_message.file_length = r.randint(1, 10 ** 6)
+        img.image_message.media_key = gen.blob(r, 32)
+        img.image_message.width = 640
+        img.image_message.height = 480
+        sk2 = ("enc", {"v": "2", "type": "skmsg", "mediatype": "image"}, [], P.group_encrypt(gj2, img.SerializeToString()))
+        n[0] += 1
+        st2 = ("message", {"from": gj2, "participant": pj, "id": "ENCM%d%s" % (n[0], gen.s_from(r, gen.HEXU, 8)), "t": str(1600000000 + n[0]), "type": "media", "notify": "N"},
+               [pairwise(dist2), sk2], None)
+        w2 = {"dir": "in-encrypted", "shape": "group-media-with-distribution", "selection": sname, "stanza": treeeq.describe(st2, 3)}
+        acc.count("encrypted_incoming")
+        acc.count("encrypted_incoming:group-media-with-distribution")
+        kit.clear()
+        try:
+            kit.inject(st2)
+        except Exception as e:  # noqa
+            acc.violation("incoming-encrypted-raises:group-media:%s" % type(e).__name__, "an encrypted group media stanza raised %r" % (e,), w2)
+            return
+        got = [e for e in kit.top.received if getattr(e, "getTag", lambda: None)() == "message"]
+        rcpts = [(x["type"], x["id"]) for x in kit.bottom.sent if x.tag == "receipt"]
+        if len(got) != 1 or getattr(got[0], "media_type", getattr(got[0], "getMediaType", lambda: None)()) not in ("image",):
+            acc.violation("incoming-encrypted-count:group-media:%d" % min(len(got), 2), "an encrypted group image message (pairwise part without mediatype, sender-key part with it) produced %d "
+                          "message entities at the top (%s); receipts sent down meanwhile: %s" % (len(got), [type(e).__name__ for e in got][:2], rcpts[:3]), w2)
+            return
+        acc.count("encrypted_incoming_ok")
 
 
 def replay(spec, acc):
